@@ -36,4 +36,20 @@ def withBody (method target host ctype : Bytes) (body : Bytes) : Bytes :=
 def charUrl (ids : List (Int × Int)) : String :=
   "/characteristics?id=" ++ ",".intercalate (ids.map fun k => toString k.1 ++ "." ++ toString k.2)
 
+/-! ## `_update_subscriptions`: one request per run of equal accessory ids
+
+`groupby(characteristics, key=itemgetter(0))` groups CONSECUTIVE items with the same aid; every group becomes one
+`PUT /characteristics` whose payload lists the group's (aid, iid) pairs in order. -/
+
+/-- consecutive grouping by the first component (itertools.groupby) -/
+def groupByAid : List (Nat × Nat) → List (List (Nat × Nat))
+  | [] => []
+  | x :: xs =>
+    match groupByAid xs with
+    | [] => [[x]]
+    | g :: gs =>
+      match g with
+      | [] => [x] :: gs          -- (never produced)
+      | y :: _ => if x.1 = y.1 then (x :: g) :: gs else [x] :: g :: gs
+
 end HapVerif.Request
